@@ -385,8 +385,11 @@ def jobs(tier, seed):
     js.append(dict(params=dict(site='fanout1005', opts='r', conc=1, horizon=400000, light=True), budget=0,
                    prefix=[]))
     if tier != 'quick':
+        # (at concurrency 2 every quiescent point has two outstanding answers, i.e. a free
+        # choice: this job is the default schedule only, the orders are explored on the
+        # small sites)
         js.append(dict(params=dict(site='fanout2003', opts='r', conc=2, horizon=800000,
-                                   early=False, light=True), budget=0, prefix=[]))
+                                   early=False, light=True), budget=0, prefix=[], single=True))
     if seed:
         k = seed % len(js)
         js = js[k:] + js[:k]
@@ -403,7 +406,9 @@ SPLIT = 150
 def run_job(job):
     leftover = []
     st = explore(run, job['params'], job['budget'], start_prefix=job['prefix'],
-                 max_exec=SPLIT, leftover=leftover)
+                 max_exec=1 if job.get('single') else SPLIT, leftover=leftover)
+    if job.get('single'):
+        leftover = []
     more = [dict(params=job['params'], budget=job['budget'], prefix=p) for p in leftover]
     return dict(evaluations=st.executions, states=st.states, transitions=st.transitions,
                 outcomes=st.outcomes, violations=st.violations, samples=st.samples,
